@@ -54,7 +54,7 @@ KT = [K0, K1, K2]
 def generate(rng, tier):
     world = gen_world(rng, kinds=("plain", "plain", "space", "space", "discrete", "grid", "line"), subunit=0.2)
     ids = [f"i{j}" for j in range(rng.randint(1, 5))]
-    pool = [{"id": rng.choice(ids), "comps": sorted(rng.sample(range(3), rng.randint(0, 3)))} for _ in range(rng.randint(2, 10))]
+    pool = [{"id": rng.choice(ids), "comps": sorted(rng.sample(range(3), rng.randint(0, 3)))} for _ in range(rng.randint(2, 16 if tier == "thorough" else 10))]
     ops = []
     for _ in range(rng.randint(5, 80 if tier == "thorough" else 50)):
         r = rng.random()
